@@ -343,3 +343,1488 @@ Proof.
     + cbn [length] in HF. lia.
     + rewrite !blen_app, !blen_u64. lia.
 Qed.
+(* ====================================================================== *)
+(** * 4. records.py: every reader against the shared encoder *)
+
+Definition u8 (s : bytes) : Prop := utf8_valid s = true.
+
+Lemma kv_ok_sort m : Forall kv_ok m -> Forall kv_ok (kv_sort m).
+Proof. intro F. eapply Permutation_Forall; [apply kv_sort_perm | exact F]. Qed.
+
+Ltac rd_go := repeat (first
+  [ rewrite ps_u8_adv
+  | rewrite ps_u16_adv by assumption
+  | rewrite ps_u32_adv by assumption
+  | rewrite ps_u64_adv by assumption
+  | rewrite ps_pstr_adv by assumption
+  | rewrite ps_str_adv by (assumption || (apply two32_lt_two63; assumption))
+  | rewrite ps_read_adv by (assumption || (apply two32_lt_two63; assumption)) ]; cbn [pbind]).
+Ltac rd_fin := rewrite <- ?app_assoc; reflexivity.
+
+Definition pwf_header (h : header) : Prop := wf_header h /\ u8 (h_profile h) /\ u8 (h_library h).
+
+Theorem rd_header_adv h s D R : pwf_header h ->
+  rd_header (adv s D (enc_header h ++ R)) = POk (PHeader h, adv s (D ++ enc_header h) R).
+Proof.
+  destruct h as [p l]. unfold pwf_header, wf_header, u8, enc_header, rd_header, pstr. cbn [h_profile h_library].
+  intros ((H1 & H2) & U1 & U2). rewrite <- !app_assoc. rd_go. rd_fin.
+Qed.
+
+Theorem rd_footer_adv f s D R : wf_footer f ->
+  rd_footer (adv s D (enc_footer f ++ R)) = POk (PFooter f, adv s (D ++ enc_footer f) R).
+Proof.
+  destruct f as [a b c]. unfold wf_footer, enc_footer, rd_footer.
+  cbn [f_summary_start f_summary_offset_start f_crc].
+  intros (H1 & H2 & H3). rewrite <- !app_assoc. rd_go. rd_fin.
+Qed.
+
+Definition pwf_schema (x : schema) : Prop := wf_schema x /\ u8 (s_name x) /\ u8 (s_encoding x).
+
+Theorem rd_schema_adv x s D R : pwf_schema x ->
+  rd_schema (adv s D (enc_schema x ++ R)) = POk (PSchema x, adv s (D ++ enc_schema x) R).
+Proof.
+  destruct x as [id nm en da]. unfold pwf_schema, wf_schema, u8, enc_schema, rd_schema, pstr.
+  cbn [s_id s_name s_encoding s_data].
+  intros ((H1 & H2 & H3 & H4) & U1 & U2). rewrite <- !app_assoc. rd_go. rd_fin.
+Qed.
+
+(* what Python holds for a channel written with metadata m: the dict built from the pairs in
+   file order (Go writes them sorted by key) *)
+Definition py_channel (c : channel) : channel :=
+  {| c_id := c_id c; c_schema := c_schema c; c_topic := c_topic c; c_menc := c_menc c;
+     c_meta := pd_build (kv_sort (c_meta c)) |}.
+
+Definition pwf_channel (c : channel) : Prop :=
+  c_id c < two16 /\ c_schema c < two16 /\ blen (c_topic c) < two32 /\ blen (c_menc c) < two32
+  /\ u8 (c_topic c) /\ u8 (c_menc c) /\ Forall kv_ok (c_meta c)
+  /\ blen (enc_kvs_body (kv_sort (c_meta c))) < two32.
+
+Lemma lfuel_kvs s D l R : (length l < lfuel (adv s D (enc_kvs_body l ++ R)))%nat.
+Proof.
+  unfold lfuel. rewrite ps_buf_adv, app_length. pose proof (enc_kvs_body_length_ge l). lia.
+Qed.
+Lemma lfuel_nn s D l R : (length l < lfuel (adv s D (concat (map enc_nn l) ++ R)))%nat.
+Proof.
+  unfold lfuel. rewrite ps_buf_adv, app_length, enc_nn_body_length. lia.
+Qed.
+Lemma lfuel_mi s D l R : (length l < lfuel (adv s D (concat (map enc_mi_entry l) ++ R)))%nat.
+Proof.
+  unfold lfuel. rewrite ps_buf_adv, app_length, enc_mi_body_length. lia.
+Qed.
+
+Theorem rd_channel_adv c s D R : pwf_channel c ->
+  rd_channel (adv s D (enc_channel c ++ R)) = POk (PChannel (py_channel c), adv s (D ++ enc_channel c) R).
+Proof.
+  destruct c as [id sid tp me mt]. unfold pwf_channel, u8, enc_channel, enc_map, rd_channel, py_channel, pstr.
+  cbn [c_id c_schema c_topic c_menc c_meta]. cbv zeta.
+  intros (H1 & H2 & H3 & H4 & U1 & U2 & F & HB). rewrite <- !app_assoc. rd_go.
+  rewrite (ps_strmap_adv (kv_sort mt)); [| apply kv_ok_sort, F | apply lfuel_kvs | reflexivity].
+  cbn [pbind]. rd_fin.
+Qed.
+
+Theorem rd_message_adv m s D R : wf_message m -> blen (m_data m) < two63 ->
+  rd_message (blen (enc_message m)) (adv s D (enc_message m ++ R))
+  = POk (PMessage m, adv s (D ++ enc_message m) R).
+Proof.
+  destruct m as [ch sq lg pb da]. unfold wf_message, enc_message, rd_message.
+  cbn [m_chan m_seq m_log m_pub m_data].
+  intros (H1 & H2 & H3 & H4) HB.
+  replace (Z.of_N (blen (u16 ch ++ u32 sq ++ u64 lg ++ u64 pb ++ da)) - 22)%Z with (Z.of_N (blen da))
+    by (rewrite !blen_app, blen_u16, blen_u32, !blen_u64; lia).
+  rewrite <- !app_assoc. rd_go. rd_fin.
+Qed.
+
+Definition pwf_chunk (k : chunk) : Prop :=
+  k_start k < two64 /\ k_end k < two64 /\ k_usize k < two64 /\ k_crc k < two32
+  /\ blen (k_comp k) < two32 /\ u8 (k_comp k) /\ blen (k_records k) < two63.
+
+Theorem rd_chunk_adv k s D R : pwf_chunk k ->
+  rd_chunk (adv s D (enc_chunk k ++ R)) = POk (PChunk k, adv s (D ++ enc_chunk k) R).
+Proof.
+  destruct k as [st en us crc comp recs]. unfold pwf_chunk, u8, enc_chunk, enc_chunk_top, rd_chunk, pstr.
+  cbn [k_start k_end k_usize k_crc k_comp k_records].
+  intros (H1 & H2 & H3 & H4 & H5 & U & H6).
+  assert (H7 : blen recs < two64) by (unfold two63, two64 in *; lia).
+  rewrite <- !app_assoc. rd_go. rd_fin.
+Qed.
+
+Theorem rd_msgindex_adv mi s D R : wf_msgindex mi ->
+  rd_msgindex (adv s D (enc_msgindex mi ++ R)) = POk (PMsgIndex mi, adv s (D ++ enc_msgindex mi) R).
+Proof.
+  destruct mi as [ch es]. unfold wf_msgindex, enc_msgindex, rd_msgindex.
+  cbn [mi_chan mi_entries]. cbv zeta.
+  intros (H1 & F & HB).
+  assert (HL : blen (concat (map enc_mi_entry es)) < two32)
+    by (unfold blen; rewrite enc_mi_body_length; lia).
+  rewrite <- !app_assoc. rd_go.
+  rewrite (ps_entries_adv es); [| exact F | apply lfuel_mi | reflexivity].
+  cbn [pbind app]. rd_fin.
+Qed.
+
+(* uint16 -> uint64 maps: the dict built from the pairs in file order *)
+Definition py_chunkindex (ci : chunkindex) : chunkindex :=
+  {| ci_start := ci_start ci; ci_end := ci_end ci; ci_offset := ci_offset ci; ci_length := ci_length ci;
+     ci_mioffsets := pn_build (ci_mioffsets ci); ci_milength := ci_milength ci; ci_comp := ci_comp ci;
+     ci_csize := ci_csize ci; ci_usize := ci_usize ci |}.
+
+Definition pwf_chunkindex (ci : chunkindex) : Prop := wf_chunkindex ci /\ u8 (ci_comp ci).
+
+Theorem rd_chunkindex_adv ci s D R : pwf_chunkindex ci ->
+  rd_chunkindex (adv s D (enc_chunkindex ci ++ R))
+  = POk (PChunkIndex (py_chunkindex ci), adv s (D ++ enc_chunkindex ci) R).
+Proof.
+  destruct ci as [st en off len mio mil comp cs us].
+  unfold pwf_chunkindex, wf_chunkindex, u8, enc_chunkindex, rd_chunkindex, py_chunkindex, pstr.
+  cbn [ci_start ci_end ci_offset ci_length ci_mioffsets ci_milength ci_comp ci_csize ci_usize]. cbv zeta.
+  intros ((H1 & H2 & H3 & H4 & F & HB & H5 & H6 & H7 & H8) & U).
+  assert (HL : blen (concat (map enc_nn mio)) < two32)
+    by (unfold blen; rewrite enc_nn_body_length; lia).
+  rewrite <- !app_assoc. rd_go.
+  rewrite (ps_nnmap_adv mio); [| exact F | apply lfuel_nn | reflexivity].
+  cbn [pbind]. rd_go. rd_fin.
+Qed.
+
+(* the attachment record as Python returns it: data_size is the length of the data read *)
+Definition py_attachment (a : attachment) (data : bytes) : attachment :=
+  {| a_log := a_log a; a_create := a_create a; a_name := a_name a; a_media := a_media a;
+     a_size := blen data; a_data := data |}.
+
+Definition pwf_attachment (a : attachment) (data : bytes) : Prop :=
+  a_log a < two64 /\ a_create a < two64 /\ blen (a_name a) < two32 /\ blen (a_media a) < two32
+  /\ u8 (a_name a) /\ u8 (a_media a) /\ a_size a = blen data /\ blen data < two63.
+
+(* the crc is read and ignored, whatever it is *)
+Theorem rd_attachment_adv a data crc s D R : pwf_attachment a data ->
+  rd_attachment (adv s D ((enc_attachment_fields a ++ data ++ u32 crc) ++ R))
+  = POk (PAttachment (py_attachment a data), adv s (D ++ enc_attachment_fields a ++ data ++ u32 crc) R).
+Proof.
+  destruct a as [lg cr nm me sz da].
+  unfold pwf_attachment, u8, enc_attachment_fields, rd_attachment, py_attachment, pstr.
+  cbn [a_log a_create a_name a_media a_size a_data].
+  intros (H1 & H2 & H3 & H4 & U1 & U2 & HS & HB). subst sz.
+  assert (H7 : blen data < two64) by (unfold two63, two64 in *; lia).
+  rewrite <- !app_assoc. rd_go. rewrite ps_u32_any. cbn [pbind]. rd_fin.
+Qed.
+
+Definition pwf_attindex (ai : attindex) : Prop := wf_attindex ai /\ u8 (ai_name ai) /\ u8 (ai_media ai).
+
+Theorem rd_attindex_adv ai s D R : pwf_attindex ai ->
+  rd_attindex (adv s D (enc_attindex ai ++ R)) = POk (PAttIndex ai, adv s (D ++ enc_attindex ai) R).
+Proof.
+  destruct ai as [off len lg cr sz nm me]. unfold pwf_attindex, wf_attindex, u8, enc_attindex, rd_attindex, pstr.
+  cbn [ai_offset ai_length ai_log ai_create ai_size ai_name ai_media].
+  intros ((H1 & H2 & H3 & H4 & H5 & H6 & H7) & U1 & U2). rewrite <- !app_assoc. rd_go. rd_fin.
+Qed.
+
+Definition py_statistics (st : statistics) : statistics :=
+  {| st_messages := st_messages st; st_schemas := st_schemas st; st_channels := st_channels st;
+     st_attachments := st_attachments st; st_metadata := st_metadata st; st_chunks := st_chunks st;
+     st_start := st_start st; st_end := st_end st; st_counts := pn_build (st_counts st) |}.
+
+Theorem rd_statistics_adv st s D R : wf_statistics st ->
+  rd_statistics (adv s D (enc_statistics st ++ R))
+  = POk (PStatistics (py_statistics st), adv s (D ++ enc_statistics st) R).
+Proof.
+  destruct st as [mc sc cc ac mdc kc st en cnt].
+  unfold wf_statistics, enc_statistics, rd_statistics, py_statistics.
+  cbn [st_messages st_schemas st_channels st_attachments st_metadata st_chunks st_start st_end st_counts].
+  cbv zeta.
+  intros (H1 & H2 & H3 & H4 & H5 & H6 & H7 & H8 & F & HB).
+  assert (HL : blen (concat (map enc_nn cnt)) < two32)
+    by (unfold blen; rewrite enc_nn_body_length; lia).
+  rewrite <- !app_assoc. rd_go.
+  rewrite (ps_nnmap_adv cnt); [| exact F | apply lfuel_nn | reflexivity].
+  cbn [pbind]. rd_fin.
+Qed.
+
+Definition py_metadata (m : metadata) : metadata :=
+  {| md_name := md_name m; md_meta := pd_build (kv_sort (md_meta m)) |}.
+
+Definition pwf_metadata (m : metadata) : Prop :=
+  blen (md_name m) < two32 /\ u8 (md_name m) /\ Forall kv_ok (md_meta m)
+  /\ blen (enc_kvs_body (kv_sort (md_meta m))) < two32.
+
+Theorem rd_metadata_adv m s D R : pwf_metadata m ->
+  rd_metadata (adv s D (enc_metadata m ++ R)) = POk (PMetadata (py_metadata m), adv s (D ++ enc_metadata m) R).
+Proof.
+  destruct m as [nm mt]. unfold pwf_metadata, u8, enc_metadata, enc_map, rd_metadata, py_metadata, pstr.
+  cbn [md_name md_meta]. cbv zeta.
+  intros (H1 & U1 & F & HB). rewrite <- !app_assoc. rd_go.
+  rewrite (ps_strmap_adv (kv_sort mt)); [| apply kv_ok_sort, F | apply lfuel_kvs | reflexivity].
+  cbn [pbind]. rd_fin.
+Qed.
+
+Definition pwf_mdindex (x : mdindex) : Prop := wf_mdindex x /\ u8 (mx_name x).
+
+Theorem rd_mdindex_adv x s D R : pwf_mdindex x ->
+  rd_mdindex (adv s D (enc_mdindex x ++ R)) = POk (PMdIndex x, adv s (D ++ enc_mdindex x) R).
+Proof.
+  destruct x as [off len nm]. unfold pwf_mdindex, wf_mdindex, u8, enc_mdindex, rd_mdindex, pstr.
+  cbn [mx_offset mx_length mx_name].
+  intros ((H1 & H2 & H3) & U1). rewrite <- !app_assoc. rd_go. rd_fin.
+Qed.
+
+Theorem rd_sumoffset_adv x s D R : wf_sumoffset x ->
+  rd_sumoffset (adv s D (enc_sumoffset x ++ R)) = POk (PSumOffset x, adv s (D ++ enc_sumoffset x) R).
+Proof.
+  destruct x as [op st len]. unfold wf_sumoffset, enc_sumoffset, rd_sumoffset.
+  cbn [so_op so_start so_length].
+  intros (H1 & H2). cbn [app]. rewrite <- ?app_assoc. rd_go. rewrite byte_of_N_to_N.
+  rewrite <- ?app_assoc. cbn [app]. reflexivity.
+Qed.
+
+Theorem rd_dataend_adv d s D R : wf_dataend d ->
+  rd_dataend (adv s D (enc_dataend d ++ R)) = POk (PDataEnd d, adv s (D ++ enc_dataend d) R).
+Proof.
+  destruct d as [c]. unfold wf_dataend, enc_dataend, rd_dataend. cbn [de_crc].
+  intros H1. rd_go. rd_fin.
+Qed.
+(* ---------- the same statements over an arbitrary stream (any count, any crc state) ---------- *)
+Definition reads_as (f : ps -> pres (prec * ps)) (enc : bytes) (x : prec) : Prop :=
+  forall s rest, ps_buf s = enc ++ rest ->
+    exists s', f s = POk (x, s') /\ advance s enc s' /\ ps_buf s' = rest.
+
+Theorem rd_header_stream h : pwf_header h -> reads_as rd_header (enc_header h) (PHeader h).
+Proof. intros W. unfold reads_as; apply (lift_adv rd_header). intros. apply rd_header_adv, W. Qed.
+Theorem rd_footer_stream f : wf_footer f -> reads_as rd_footer (enc_footer f) (PFooter f).
+Proof. intros W. unfold reads_as; apply (lift_adv rd_footer). intros. apply rd_footer_adv, W. Qed.
+Theorem rd_schema_stream x : pwf_schema x -> reads_as rd_schema (enc_schema x) (PSchema x).
+Proof. intros W. unfold reads_as; apply (lift_adv rd_schema). intros. apply rd_schema_adv, W. Qed.
+Theorem rd_channel_stream c : pwf_channel c -> reads_as rd_channel (enc_channel c) (PChannel (py_channel c)).
+Proof. intros W. unfold reads_as; apply (lift_adv rd_channel). intros. apply rd_channel_adv, W. Qed.
+Theorem rd_message_stream m : wf_message m -> blen (m_data m) < two63 ->
+  reads_as (rd_message (blen (enc_message m))) (enc_message m) (PMessage m).
+Proof. intros W B. unfold reads_as; apply (lift_adv (rd_message _)). intros. apply rd_message_adv; assumption. Qed.
+Theorem rd_chunk_stream k : pwf_chunk k -> reads_as rd_chunk (enc_chunk k) (PChunk k).
+Proof. intros W. unfold reads_as; apply (lift_adv rd_chunk). intros. apply rd_chunk_adv, W. Qed.
+Theorem rd_msgindex_stream mi : wf_msgindex mi -> reads_as rd_msgindex (enc_msgindex mi) (PMsgIndex mi).
+Proof. intros W. unfold reads_as; apply (lift_adv rd_msgindex). intros. apply rd_msgindex_adv, W. Qed.
+Theorem rd_chunkindex_stream ci : pwf_chunkindex ci ->
+  reads_as rd_chunkindex (enc_chunkindex ci) (PChunkIndex (py_chunkindex ci)).
+Proof. intros W. unfold reads_as; apply (lift_adv rd_chunkindex). intros. apply rd_chunkindex_adv, W. Qed.
+Theorem rd_attachment_stream a data crc : pwf_attachment a data ->
+  reads_as rd_attachment (enc_attachment_fields a ++ data ++ u32 crc) (PAttachment (py_attachment a data)).
+Proof. intros W. unfold reads_as; apply (lift_adv rd_attachment). intros. apply rd_attachment_adv, W. Qed.
+Theorem rd_attindex_stream ai : pwf_attindex ai -> reads_as rd_attindex (enc_attindex ai) (PAttIndex ai).
+Proof. intros W. unfold reads_as; apply (lift_adv rd_attindex). intros. apply rd_attindex_adv, W. Qed.
+Theorem rd_statistics_stream st : wf_statistics st ->
+  reads_as rd_statistics (enc_statistics st) (PStatistics (py_statistics st)).
+Proof. intros W. unfold reads_as; apply (lift_adv rd_statistics). intros. apply rd_statistics_adv, W. Qed.
+Theorem rd_metadata_stream m : pwf_metadata m ->
+  reads_as rd_metadata (enc_metadata m) (PMetadata (py_metadata m)).
+Proof. intros W. unfold reads_as; apply (lift_adv rd_metadata). intros. apply rd_metadata_adv, W. Qed.
+Theorem rd_mdindex_stream x : pwf_mdindex x -> reads_as rd_mdindex (enc_mdindex x) (PMdIndex x).
+Proof. intros W. unfold reads_as; apply (lift_adv rd_mdindex). intros. apply rd_mdindex_adv, W. Qed.
+Theorem rd_sumoffset_stream x : wf_sumoffset x -> reads_as rd_sumoffset (enc_sumoffset x) (PSumOffset x).
+Proof. intros W. unfold reads_as; apply (lift_adv rd_sumoffset). intros. apply rd_sumoffset_adv, W. Qed.
+Theorem rd_dataend_stream d : wf_dataend d -> reads_as rd_dataend (enc_dataend d) (PDataEnd d).
+Proof. intros W. unfold reads_as; apply (lift_adv rd_dataend). intros. apply rd_dataend_adv, W. Qed.
+
+(* with distinct keys the maps are exactly what was written (Go's order) *)
+Lemma py_channel_nodup c : NoDup (map fst (c_meta c)) -> py_channel c = channel_norm c.
+Proof. intro H. unfold py_channel, channel_norm. rewrite pd_build_kv_sort by exact H. reflexivity. Qed.
+Lemma py_metadata_nodup m : NoDup (map fst (md_meta m)) -> py_metadata m = metadata_norm m.
+Proof. intro H. unfold py_metadata, metadata_norm. rewrite pd_build_kv_sort by exact H. reflexivity. Qed.
+Lemma py_statistics_nodup st : NoDup (map fst (st_counts st)) -> py_statistics st = st.
+Proof. intro H. destruct st as [a1 a2 a3 a4 a5 a6 a7 a8 cnt]. unfold py_statistics. cbn [st_counts] in *. rewrite pn_build_nodup by exact H. reflexivity. Qed.
+Lemma py_chunkindex_nodup ci : NoDup (map fst (ci_mioffsets ci)) -> py_chunkindex ci = ci.
+Proof. intro H. destruct ci as [a1 a2 a3 a4 mio a6 a7 a8 a9]. unfold py_chunkindex. cbn [ci_mioffsets] in *. rewrite pn_build_nodup by exact H. reflexivity. Qed.
+
+(* ====================================================================== *)
+(** * 5. StreamReader._read_record and one turn of the record loop *)
+
+Definition rec_op (r : prec) : byte :=
+  match r with
+  | PHeader _ => OpHeader | PFooter _ => OpFooter | PSchema _ => OpSchema | PChannel _ => OpChannel
+  | PMessage _ => OpMessage | PChunk _ => OpChunk | PMsgIndex _ => OpMessageIndex
+  | PChunkIndex _ => OpChunkIndex | PAttachment _ => OpAttachment | PAttIndex _ => OpAttachmentIndex
+  | PStatistics _ => OpStatistics | PMetadata _ => OpMetadata | PMdIndex _ => OpMetadataIndex
+  | PSumOffset _ => OpSummaryOffset | PDataEnd _ => OpDataEnd
+  end.
+
+(* the record body as Go encodes it (an attachment with its correct CRC) *)
+Definition rec_body (r : prec) : bytes :=
+  match r with
+  | PHeader h => enc_header h | PFooter f => enc_footer f | PSchema x => enc_schema x
+  | PChannel c => enc_channel c | PMessage m => enc_message m | PChunk k => enc_chunk k
+  | PMsgIndex mi => enc_msgindex mi | PChunkIndex ci => enc_chunkindex ci
+  | PAttachment a => enc_attachment_fields a ++ a_data a ++ u32 (crc32 (enc_attachment_fields a ++ a_data a))
+  | PAttIndex ai => enc_attindex ai | PStatistics st => enc_statistics st | PMetadata m => enc_metadata m
+  | PMdIndex x => enc_mdindex x | PSumOffset x => enc_sumoffset x | PDataEnd d => enc_dataend d
+  end.
+
+(* the record Python builds from it *)
+Definition py_norm (r : prec) : prec :=
+  match r with
+  | PChannel c => PChannel (py_channel c)
+  | PChunkIndex ci => PChunkIndex (py_chunkindex ci)
+  | PAttachment a => PAttachment (py_attachment a (a_data a))
+  | PStatistics st => PStatistics (py_statistics st)
+  | PMetadata m => PMetadata (py_metadata m)
+  | x => x
+  end.
+
+Definition pwf_rec (r : prec) : Prop :=
+  match r with
+  | PHeader h => pwf_header h | PFooter f => wf_footer f | PSchema x => pwf_schema x
+  | PChannel c => pwf_channel c | PMessage m => wf_message m /\ blen (m_data m) < two63
+  | PChunk k => pwf_chunk k | PMsgIndex mi => wf_msgindex mi | PChunkIndex ci => pwf_chunkindex ci
+  | PAttachment a => pwf_attachment a (a_data a) | PAttIndex ai => pwf_attindex ai
+  | PStatistics st => wf_statistics st | PMetadata m => pwf_metadata m | PMdIndex x => pwf_mdindex x
+  | PSumOffset x => wf_sumoffset x | PDataEnd d => wf_dataend d
+  end.
+
+Lemma some_rec_ok x s : some_rec (POk (x, s)) = POk (Some x, s).
+Proof. reflexivity. Qed.
+
+Theorem read_record_adv r s D R : pwf_rec r ->
+  read_record (Byte.to_N (rec_op r)) (blen (rec_body r)) (adv s D (rec_body r ++ R))
+  = POk (Some (py_norm r), adv s (D ++ rec_body r) R).
+Proof.
+  destruct r; cbn [rec_op rec_body py_norm pwf_rec]; intro W.
+  - change (read_record _ ?l ?st) with (some_rec (rd_header st)). rewrite rd_header_adv by exact W. reflexivity.
+  - change (read_record _ ?l ?st) with (some_rec (rd_footer st)). rewrite rd_footer_adv by exact W. reflexivity.
+  - change (read_record _ ?l ?st) with (some_rec (rd_schema st)). rewrite rd_schema_adv by exact W. reflexivity.
+  - change (read_record _ ?l ?st) with (some_rec (rd_channel st)). rewrite rd_channel_adv by exact W. reflexivity.
+  - change (read_record _ ?l ?st) with (some_rec (rd_message l st)). destruct W as [W B].
+    rewrite rd_message_adv by assumption. reflexivity.
+  - change (read_record _ ?l ?st) with (some_rec (rd_chunk st)). rewrite rd_chunk_adv by exact W. reflexivity.
+  - change (read_record _ ?l ?st) with (some_rec (rd_msgindex st)). rewrite rd_msgindex_adv by exact W. reflexivity.
+  - change (read_record _ ?l ?st) with (some_rec (rd_chunkindex st)). rewrite rd_chunkindex_adv by exact W. reflexivity.
+  - change (read_record _ ?l ?st) with (some_rec (rd_attachment st)). rewrite rd_attachment_adv by exact W. reflexivity.
+  - change (read_record _ ?l ?st) with (some_rec (rd_attindex st)). rewrite rd_attindex_adv by exact W. reflexivity.
+  - change (read_record _ ?l ?st) with (some_rec (rd_statistics st)). rewrite rd_statistics_adv by exact W. reflexivity.
+  - change (read_record _ ?l ?st) with (some_rec (rd_metadata st)). rewrite rd_metadata_adv by exact W. reflexivity.
+  - change (read_record _ ?l ?st) with (some_rec (rd_mdindex st)). rewrite rd_mdindex_adv by exact W. reflexivity.
+  - change (read_record _ ?l ?st) with (some_rec (rd_sumoffset st)). rewrite rd_sumoffset_adv by exact W. reflexivity.
+  - change (read_record _ ?l ?st) with (some_rec (rd_dataend st)). rewrite rd_dataend_adv by exact W. reflexivity.
+Qed.
+
+(* opcodes StreamReader knows *)
+Definition py_known (op : byte) : bool := (1 <=? Byte.to_N op) && (Byte.to_N op <=? 15).
+
+Theorem read_record_unknown op body s D R : py_known op = false -> blen body < two63 ->
+  read_record (Byte.to_N op) (blen body) (adv s D (body ++ R)) = POk (None, adv s (D ++ body) R).
+Proof.
+  intros K B. unfold py_known in K. unfold read_record.
+  repeat match goal with |- context [N.eqb ?a ?b] => destruct (N.eqb_spec a b); [lia|] end.
+  rewrite ps_read_adv by exact B. reflexivity.
+Qed.
+(* ---------- sr_iter ---------- *)
+Definition limit_ok (lim : option N) (n : N) : Prop :=
+  match lim with Some l => n <= l | None => True end.
+
+(* the running crc the DataEnd check compares with *)
+Definition crc_before (r : sr) : N :=
+  if sr_validate r && negb (sr_skip r) then match ps_crc (sr_s r) with Some c => c | None => 0 end else 0.
+
+Definition dataend_bad (r : sr) (rec : option prec) : bool :=
+  sr_validate r && negb (sr_skip r) &&
+  match rec with
+  | Some (PDataEnd d) => negb (de_crc d =? 0) && negb (de_crc d =? crc_before r)
+  | _ => false
+  end.
+
+Lemma frame_unfold op body R : frame op body ++ R = op :: u64 (blen body) ++ body ++ R.
+Proof. unfold frame, frame_head. cbn [app]. rewrite <- app_assoc. reflexivity. Qed.
+
+Lemma frame_split D op body : (D ++ [op]) ++ u64 (blen body) = D ++ frame_head op (blen body).
+Proof. unfold frame_head. rewrite <- app_assoc. reflexivity. Qed.
+
+(* one turn of the loop on a stream that starts with a framed record whose body read_record
+   consumes exactly *)
+Lemma sr_iter_frame r s0 D op body R rec :
+  sr_s r = adv s0 D (frame op body ++ R) ->
+  blen body < two64 -> limit_ok (sr_limit r) (blen body) ->
+  read_record (Byte.to_N op) (blen body) (adv s0 (D ++ frame_head op (blen body)) (body ++ R))
+    = POk (rec, adv s0 ((D ++ frame_head op (blen body)) ++ body) R) ->
+  sr_iter r =
+    if dataend_bad r rec then PRaise PCrc else
+    match rec with
+    | Some (PChunk k) =>
+      if sr_emit r then POk ([PChunk k], false, adv s0 (D ++ frame op body) R)
+      else let+ inner := breakup_chunk k (sr_validate r) in POk (inner, false, adv s0 (D ++ frame op body) R)
+    | Some x => POk ([x], is_footer rec, adv s0 (D ++ frame op body) R)
+    | None => POk ([], false, adv s0 (D ++ frame op body) R)
+    end.
+Proof.
+  intros HS HB HL HR. unfold sr_iter, dataend_bad, crc_before. cbv zeta.
+  replace (ps_uint 1 (sr_s r)) with (ps_uint 1 (adv s0 D (frame op body ++ R))) by (rewrite HS; reflexivity).
+  rewrite frame_unfold.
+  rewrite ps_u8_adv. cbn [pbind]. rewrite ps_u64_adv by exact HB. cbn [pbind].
+  replace (match sr_limit r with Some lim => lim <? blen body | None => false end) with false.
+  2:{ unfold limit_ok in HL. destruct (sr_limit r); [|reflexivity]. symmetry. apply N.ltb_ge. exact HL. }
+  rewrite frame_split, HR. cbn [pbind].
+  match goal with |- (if ?c then _ else _) = (if ?c' then _ else _) => change c' with c; destruct c end;
+    [reflexivity|].
+  rewrite !ps_count_adv, blen_app.
+  match goal with |- context [Z.ltb 0 ?p] => replace (Z.ltb 0 p) with false by lia end.
+  cbn [pbind].
+  replace ((D ++ frame_head op (blen body)) ++ body) with (D ++ frame op body)
+    by (unfold frame; rewrite <- app_assoc; reflexivity).
+  reflexivity.
+Qed.
+
+Definition is_chunk (x : prec) : bool := match x with PChunk _ => true | _ => false end.
+Definition is_dataend (x : prec) : bool := match x with PDataEnd _ => true | _ => false end.
+
+Lemma frame_head_app D op body : (D ++ frame_head op (blen body)) ++ body = D ++ frame op body.
+Proof. unfold frame. rewrite <- app_assoc. reflexivity. Qed.
+
+(* every known record except Chunk (DataEnd: when the CRC check lets it through) *)
+Theorem sr_iter_rec r s0 D x R :
+  sr_s r = adv s0 D (frame (rec_op x) (rec_body x) ++ R) ->
+  pwf_rec x -> is_chunk x = false ->
+  blen (rec_body x) < two64 -> limit_ok (sr_limit r) (blen (rec_body x)) ->
+  dataend_bad r (Some x) = false ->
+  sr_iter r = POk ([py_norm x], is_footer (Some x), adv s0 (D ++ frame (rec_op x) (rec_body x)) R).
+Proof.
+  intros HS W NC HB HL HD.
+  rewrite (sr_iter_frame r s0 D _ _ R (Some (py_norm x)) HS HB HL)
+    by (apply read_record_adv, W).
+  replace (dataend_bad r (Some (py_norm x))) with (dataend_bad r (Some x)) by (destruct x; reflexivity).
+  rewrite HD. destruct x; try discriminate NC; reflexivity.
+Qed.
+
+(* DataEnd: with validation on and the magic not skipped, the check passes iff the field is 0 or
+   equals the running crc before the record *)
+Theorem sr_iter_dataend r s0 D d R :
+  sr_s r = adv s0 D (frame OpDataEnd (enc_dataend d) ++ R) ->
+  wf_dataend d -> limit_ok (sr_limit r) 4 ->
+  sr_iter r =
+    if sr_validate r && negb (sr_skip r) && negb (de_crc d =? 0)
+       && negb (de_crc d =? match ps_crc (sr_s r) with Some c => c | None => 0 end)
+    then PRaise PCrc
+    else POk ([PDataEnd d], false, adv s0 (D ++ frame OpDataEnd (enc_dataend d)) R).
+Proof.
+  intros HS W HL.
+  assert (B4 : blen (enc_dataend d) = 4) by apply blen_u32.
+  rewrite (sr_iter_frame r s0 D _ _ R (Some (PDataEnd d)) HS).
+  - unfold dataend_bad, crc_before.
+    destruct (sr_validate r && negb (sr_skip r)); cbn [andb]; [|reflexivity].
+    destruct (negb (de_crc d =? 0) && negb (de_crc d =? _)); reflexivity.
+  - rewrite B4. unfold two64. lia.
+  - rewrite B4. exact HL.
+  - apply (read_record_adv (PDataEnd d)). exact W.
+Qed.
+
+Theorem sr_iter_unknown r s0 D op body R :
+  sr_s r = adv s0 D (frame op body ++ R) ->
+  py_known op = false -> blen body < two63 -> limit_ok (sr_limit r) (blen body) ->
+  sr_iter r = POk ([], false, adv s0 (D ++ frame op body) R).
+Proof.
+  intros HS K HB HL.
+  rewrite (sr_iter_frame r s0 D _ _ R None HS).
+  - unfold dataend_bad. rewrite andb_false_r. reflexivity.
+  - unfold two63, two64 in *. lia.
+  - exact HL.
+  - apply read_record_unknown; assumption.
+Qed.
+
+Theorem sr_iter_chunk r s0 D k R :
+  sr_s r = adv s0 D (frame OpChunk (enc_chunk k) ++ R) ->
+  pwf_chunk k -> blen (enc_chunk k) < two64 -> limit_ok (sr_limit r) (blen (enc_chunk k)) ->
+  sr_iter r =
+    if sr_emit r then POk ([PChunk k], false, adv s0 (D ++ frame OpChunk (enc_chunk k)) R)
+    else let+ inner := breakup_chunk k (sr_validate r) in
+         POk (inner, false, adv s0 (D ++ frame OpChunk (enc_chunk k)) R).
+Proof.
+  intros HS W HB HL.
+  rewrite (sr_iter_frame r s0 D _ _ R (Some (PChunk k)) HS HB HL).
+  - unfold dataend_bad. rewrite andb_false_r. reflexivity.
+  - apply (read_record_adv (PChunk k)). exact W.
+Qed.
+
+(* ---------- breakup_chunk ---------- *)
+Inductive pinner :=
+| NSchema (x : schema) | NChannel (c : channel) | NMessage (m : message)
+| NOther (op : byte) (body : bytes).
+
+Definition inner_op (i : pinner) : byte :=
+  match i with NSchema _ => OpSchema | NChannel _ => OpChannel | NMessage _ => OpMessage | NOther op _ => op end.
+Definition inner_body (i : pinner) : bytes :=
+  match i with NSchema x => enc_schema x | NChannel c => enc_channel c | NMessage m => enc_message m
+             | NOther _ body => body end.
+Definition inner_bytes (i : pinner) : bytes := frame (inner_op i) (inner_body i).
+Definition inner_recs (i : pinner) : list prec :=
+  match i with NSchema x => [PSchema x] | NChannel c => [PChannel (py_channel c)] | NMessage m => [PMessage m]
+             | NOther _ _ => [] end.
+(* opcodes breakup_chunk looks at *)
+Definition inner_kept (op : byte) : bool :=
+  (Byte.to_N op =? 3) || (Byte.to_N op =? 4) || (Byte.to_N op =? 5).
+Definition pwf_inner (i : pinner) : Prop :=
+  blen (inner_body i) < two63 /\
+  match i with
+  | NSchema x => pwf_schema x | NChannel c => pwf_channel c | NMessage m => wf_message m
+  | NOther op _ => inner_kept op = false
+  end.
+
+Definition chunk_bytes (l : list pinner) : bytes := concat (map inner_bytes l).
+Definition chunk_recs (l : list pinner) : list prec := flat_map inner_recs l.
+
+Lemma message_data_bound m : blen (enc_message m) < two63 -> blen (m_data m) < two63.
+Proof. unfold enc_message. rewrite !blen_app. lia. Qed.
+
+Lemma breakup_loop_adv l : forall fuel total s D acc,
+  Forall pwf_inner l -> (length l < fuel)%nat ->
+  total = ps_count s + blen D + blen (chunk_bytes l) ->
+  breakup_loop fuel total (adv s D (chunk_bytes l)) acc = POk (acc ++ chunk_recs l).
+Proof.
+  induction l as [|i l IH]; intros fuel total s D acc F HF HT;
+    (destruct fuel as [|fuel]; [cbn [length] in HF; lia|]); cbn [breakup_loop].
+  - rewrite ps_count_adv. change (chunk_bytes []) with (@nil byte) in HT. rewrite blen_nil in HT.
+    destruct (N.ltb_spec (ps_count s + blen D) total); [lia|]. rewrite app_nil_r. reflexivity.
+  - rewrite ps_count_adv.
+    change (chunk_bytes (i :: l)) with (inner_bytes i ++ chunk_bytes l) in *.
+    inversion F as [|? ? (B & W) F']; subst.
+    unfold inner_bytes in *. rewrite blen_app in *.
+    assert (0 < blen (frame (inner_op i) (inner_body i)))
+      by (unfold blen; rewrite frame_length; lia).
+    match goal with |- context [N.ltb ?a ?b] => destruct (N.ltb_spec a b) end; [|lia].
+    rewrite frame_unfold. rewrite ps_u8_adv. cbn [pbind].
+    rewrite ps_u64_adv by (unfold two63, two64 in *; lia). cbn [pbind].
+    rewrite frame_split.
+    assert (NX : forall acc',
+      breakup_loop fuel (ps_count s + blen D + (blen (frame (inner_op i) (inner_body i)) + blen (chunk_bytes l)))
+        (adv s ((D ++ frame_head (inner_op i) (blen (inner_body i))) ++ inner_body i) (chunk_bytes l)) acc'
+      = POk (acc' ++ chunk_recs l)).
+    { intro acc'. apply IH; [exact F' | cbn [length] in HF; lia |].
+      rewrite frame_head_app, blen_app. lia. }
+    destruct i as [x|c|m|op body]; cbn [inner_op inner_body inner_recs] in *.
+    + change (Byte.to_N OpSchema) with 3. cbn [N.eqb Pos.eqb].
+      rewrite rd_schema_adv by exact W. cbn [pbind]. rewrite NX.
+      unfold chunk_recs. cbn [flat_map inner_recs]. rewrite <- app_assoc. reflexivity.
+    + change (Byte.to_N OpChannel) with 4. cbn [N.eqb Pos.eqb].
+      rewrite rd_channel_adv by exact W. cbn [pbind]. rewrite NX.
+      unfold chunk_recs. cbn [flat_map inner_recs]. rewrite <- app_assoc. reflexivity.
+    + change (Byte.to_N OpMessage) with 5. cbn [N.eqb Pos.eqb].
+      rewrite rd_message_adv by (try exact W; apply message_data_bound, B). cbn [pbind]. rewrite NX.
+      unfold chunk_recs. cbn [flat_map inner_recs]. rewrite <- app_assoc. reflexivity.
+    + unfold inner_kept in W. apply orb_false_iff in W. destruct W as [W W5].
+      apply orb_false_iff in W. destruct W as [W3 W4].
+      rewrite W3, W4, W5. rewrite ps_read_adv by exact B. cbn [pbind]. rewrite NX.
+      unfold chunk_recs. cbn [flat_map inner_recs app]. reflexivity.
+Qed.
+
+(* the uncompressed chunk Go writes for these inner records *)
+Definition mk_chunk (st en crc : N) (l : list pinner) : chunk :=
+  {| k_start := st; k_end := en; k_usize := blen (chunk_bytes l); k_crc := crc; k_comp := [];
+     k_records := chunk_bytes l |}.
+
+Definition chunk_crc_ok (validate : bool) (crc : N) (l : list pinner) : Prop :=
+  validate = true -> crc = 0 \/ crc = crc32 (chunk_bytes l).
+
+Lemma chunk_bytes_length l : (9 * length l <= length (chunk_bytes l))%nat.
+Proof.
+  induction l as [|i l IH]; [cbn; lia|].
+  change (chunk_bytes (i :: l)) with (inner_bytes i ++ chunk_bytes l).
+  rewrite app_length. unfold inner_bytes. rewrite frame_length. cbn [length]. lia.
+Qed.
+
+Theorem breakup_chunk_ok st en crc l validate :
+  Forall pwf_inner l -> chunk_crc_ok validate crc l ->
+  breakup_chunk (mk_chunk st en crc l) validate = POk (chunk_recs l).
+Proof.
+  intros F C. unfold breakup_chunk, mk_chunk. cbn [k_comp k_records k_crc bytes_eqb orb].
+  replace (validate && negb (crc =? 0) && negb (crc32 (chunk_bytes l) =? crc)) with false.
+  2:{ symmetry. destruct validate; [|reflexivity]. destruct (C eq_refl) as [E|E]; subst crc.
+      - reflexivity.
+      - rewrite N.eqb_refl. cbn [negb andb]. apply andb_false_r. }
+  rewrite <- (adv_nil (mem_stream (chunk_bytes l) false)). cbn [ps_buf mem_stream].
+  rewrite (breakup_loop_adv l); [reflexivity | exact F | |].
+  - pose proof (chunk_bytes_length l). lia.
+  - rewrite blen_nil. cbn [ps_count mem_stream]. lia.
+Qed.
+Theorem sr_iter_attach r s0 D a crc R :
+  sr_s r = adv s0 D (frame OpAttachment (enc_attachment_fields a ++ a_data a ++ u32 crc) ++ R) ->
+  pwf_attachment a (a_data a) ->
+  blen (enc_attachment_fields a ++ a_data a ++ u32 crc) < two64 ->
+  limit_ok (sr_limit r) (blen (enc_attachment_fields a ++ a_data a ++ u32 crc)) ->
+  sr_iter r = POk ([PAttachment (py_attachment a (a_data a))], false,
+                   adv s0 (D ++ frame OpAttachment (enc_attachment_fields a ++ a_data a ++ u32 crc)) R).
+Proof.
+  intros HS W HB HL.
+  rewrite (sr_iter_frame r s0 D _ _ R (Some (PAttachment (py_attachment a (a_data a)))) HS HB HL).
+  - unfold dataend_bad. rewrite andb_false_r. reflexivity.
+  - change (read_record _ ?l ?st) with (some_rec (rd_attachment st)).
+    rewrite rd_attachment_adv by exact W. reflexivity.
+Qed.
+
+Lemma py_attachment_id a : a_size a = blen (a_data a) -> py_attachment a (a_data a) = a.
+Proof. destruct a as [lg cr nm me sz da]. unfold py_attachment. cbn [a_log a_create a_name a_media a_size a_data]. intros ->. reflexivity. Qed.
+
+(* ====================================================================== *)
+(** * 6. a typed description of an uncompressed file, its Go rendering, what Python must deliver *)
+
+Inductive pitem :=
+| PIRec (r : prec)                                  (* any record but a chunk, body as Go encodes it *)
+| PIAttach (a : attachment) (crc : N)               (* an attachment carrying any crc field *)
+| PIUnknown (op : byte) (body : bytes)
+| PIChunk (st en crc : N) (inner : list pinner).    (* an uncompressed chunk *)
+
+Definition pitem_bytes (p : pitem) : bytes :=
+  match p with
+  | PIRec r => frame (rec_op r) (rec_body r)
+  | PIAttach a crc => frame OpAttachment (enc_attachment_fields a ++ a_data a ++ u32 crc)
+  | PIUnknown op body => frame op body
+  | PIChunk st en crc l => frame OpChunk (enc_chunk (mk_chunk st en crc l))
+  end.
+Definition py_render (ps : list pitem) : bytes := concat (map pitem_bytes ps).
+
+(* the same file as a list of the Go writer's items *)
+Definition to_item (p : pitem) : item :=
+  match p with
+  | PIRec (PFooter f) => IFooter (f_summary_start f) (f_summary_offset_start f) (f_crc f)
+  | PIRec (PChunk k) => IChunk k
+  | PIRec (PAttachment a) => IAttach a (a_data a) (crc32 (enc_attachment_fields a ++ a_data a))
+  | PIRec r => IRec (rec_op r) (rec_body r)
+  | PIAttach a crc => IAttach a (a_data a) crc
+  | PIUnknown op body => IRec op body
+  | PIChunk st en crc l => IChunk (mk_chunk st en crc l)
+  end.
+Definition to_items (ps : list pitem) : list item := map to_item ps.
+
+Lemma pitem_bytes_go p : pitem_bytes p = render_item (to_item p).
+Proof.
+  destruct p as [r|a crc|op body|st en crc l]; try reflexivity.
+  destruct r; reflexivity.
+Qed.
+
+Theorem py_render_go ps : py_render ps = render (to_items ps).
+Proof.
+  unfold py_render, render, to_items. rewrite map_map. f_equal.
+  apply map_ext. intro p. apply pitem_bytes_go.
+Qed.
+
+Definition pitem_recs (emit : bool) (p : pitem) : list prec :=
+  match p with
+  | PIRec r => [py_norm r]
+  | PIAttach a _ => [PAttachment (py_attachment a (a_data a))]
+  | PIUnknown _ _ => []
+  | PIChunk st en crc l => if emit then [PChunk (mk_chunk st en crc l)] else chunk_recs l
+  end.
+Definition py_expected_gen (emit : bool) (ps : list pitem) : list prec := flat_map (pitem_recs emit) ps.
+Definition py_expected := py_expected_gen false.
+
+Definition pwf_pitem (validate emit : bool) (p : pitem) : Prop :=
+  blen (match p with
+        | PIRec r => rec_body r
+        | PIAttach a crc => enc_attachment_fields a ++ a_data a ++ u32 crc
+        | PIUnknown _ body => body
+        | PIChunk st en crc l => enc_chunk (mk_chunk st en crc l)
+        end) <= two32 /\
+  match p with
+  | PIRec r => pwf_rec r /\ is_chunk r = false
+  | PIAttach a _ => pwf_attachment a (a_data a)
+  | PIUnknown op _ => py_known op = false
+  | PIChunk st en crc l =>
+    st < two64 /\ en < two64 /\ crc < two32
+    /\ (emit = false -> Forall pwf_inner l /\ chunk_crc_ok validate crc l)
+  end.
+
+Definition is_footer_item (p : pitem) : bool := match p with PIRec (PFooter _) => true | _ => false end.
+
+(* every DataEnd carries 0 or the CRC-32 of everything before it, D being what precedes the items *)
+Definition dataend_ok (validate : bool) (D : bytes) (items : list pitem) : Prop :=
+  validate = true -> forall pre d post, items = pre ++ PIRec (PDataEnd d) :: post ->
+    de_crc d = 0 \/ de_crc d = crc32 (D ++ py_render pre).
+
+Definition pwf_file (validate emit : bool) (ps : list pitem) : Prop :=
+  exists body f,
+    ps = body ++ [PIRec (PFooter f)]
+    /\ Forall (pwf_pitem validate emit) ps
+    /\ Forall (fun p => is_footer_item p = false) body
+    /\ dataend_ok validate magic ps.
+
+Lemma py_render_cons p l : py_render (p :: l) = pitem_bytes p ++ py_render l.
+Proof. reflexivity. Qed.
+
+Lemma dataend_ok_tail v D p items : dataend_ok v D (p :: items) -> dataend_ok v (D ++ pitem_bytes p) items.
+Proof.
+  intros H V pre d post E. specialize (H V (p :: pre) d post). rewrite E in H.
+  rewrite py_render_cons, app_assoc in H. apply H. reflexivity.
+Qed.
+
+Lemma dataend_ok_head v D d items : dataend_ok v D (PIRec (PDataEnd d) :: items) -> v = true ->
+  de_crc d = 0 \/ de_crc d = crc32 D.
+Proof.
+  intros H V. specialize (H V [] d items eq_refl). cbn in H. rewrite app_nil_r in H. exact H.
+Qed.
+
+Lemma pitem_bytes_length p : (9 <= length (pitem_bytes p))%nat.
+Proof. destruct p; cbn [pitem_bytes]; rewrite frame_length; lia. Qed.
+
+Lemma py_render_length l : (9 * length l <= length (py_render l))%nat.
+Proof.
+  induction l as [|p l IH]; [cbn; lia|].
+  rewrite py_render_cons, app_length. pose proof (pitem_bytes_length p). cbn [length]. lia.
+Qed.
+
+Lemma chunk_recs_length l : (length (chunk_recs l) <= length l)%nat.
+Proof.
+  induction l as [|i l IH]; [cbn; lia|].
+  unfold chunk_recs in *. cbn [flat_map]. rewrite app_length. destruct i; cbn [inner_recs length]; lia.
+Qed.
+
+Lemma py_expected_length e l : (length (py_expected_gen e l) <= length (py_render l))%nat.
+Proof.
+  induction l as [|p l IH]; [cbn; lia|].
+  unfold py_expected_gen in *. cbn [flat_map]. rewrite py_render_cons, !app_length.
+  enough (length (pitem_recs e p) <= length (pitem_bytes p))%nat by lia.
+  pose proof (pitem_bytes_length p).
+  destruct p as [r|a crc|op body|st en crc l']; cbn [pitem_recs length]; try lia.
+  destruct e; cbn [length]; [lia|].
+  cbn [pitem_bytes]. rewrite frame_length. unfold enc_chunk, mk_chunk. cbn [k_records].
+  rewrite app_length. pose proof (chunk_recs_length l'). pose proof (chunk_bytes_length l'). lia.
+Qed.
+
+(* ====================================================================== *)
+(** * 7. the generator *)
+
+Inductive gen_yields : sr -> list prec -> Prop :=
+| gy_stop r r' : sr_pull r = POk (None, r') -> gen_yields r []
+| gy_step r x r' xs : sr_pull r = POk (Some x, r') -> gen_yields r' xs -> gen_yields r (x :: xs).
+
+Definition gen_body (res : pres (option prec * sr)) (xs : list prec) : Prop :=
+  match xs with
+  | [] => exists r', res = POk (None, r')
+  | x :: xs' => exists r', res = POk (Some x, r') /\ gen_yields r' xs'
+  end.
+
+Lemma gen_yields_pull r xs : gen_body (sr_pull r) xs -> gen_yields r xs.
+Proof.
+  destruct xs as [|x xs]; cbn [gen_body].
+  - intros [r' E]. eapply gy_stop, E.
+  - intros [r' [E G]]. eapply gy_step; eassumption.
+Qed.
+
+Definition mk_sr (validate emit : bool) (st : ps) (ph : phase) (pend : list prec) : sr :=
+  {| sr_s := st; sr_skip := false; sr_emit := emit; sr_validate := validate; sr_limit := limit_4g;
+     sr_phase := ph; sr_pending := pend |}.
+
+Lemma sr_next_pending v e st ph x pend fuel :
+  sr_next (S fuel) (mk_sr v e st ph (x :: pend)) = POk (Some x, mk_sr v e st ph pend).
+Proof. reflexivity. Qed.
+
+Lemma sr_next_loop_step v e st fuel :
+  sr_next (S fuel) (mk_sr v e st PhLoop [])
+  = let+ (ys, isf, s') := sr_iter (mk_sr v e st PhLoop []) in
+    sr_next fuel (mk_sr v e s' (if isf then PhFooter else PhLoop) ys).
+Proof. reflexivity. Qed.
+
+Lemma sr_pull_unfold v e st ph pend :
+  sr_pull (mk_sr v e st ph pend) = sr_next (length (ps_buf st) + 4) (mk_sr v e st ph pend).
+Proof. reflexivity. Qed.
+
+(* once the loop with nothing pending is known to deliver E, pending records come first *)
+Lemma pend_then v e st E n :
+  (forall fuel, (n <= fuel)%nat -> gen_body (sr_next fuel (mk_sr v e st PhLoop [])) E) ->
+  (n <= length (ps_buf st) + 4)%nat ->
+  forall ys,
+    gen_yields (mk_sr v e st PhLoop ys) (ys ++ E)
+    /\ forall fuel, (1 <= fuel)%nat -> (n <= fuel)%nat ->
+         gen_body (sr_next fuel (mk_sr v e st PhLoop ys)) (ys ++ E).
+Proof.
+  intros Q HN.
+  assert (G : forall ys, gen_yields (mk_sr v e st PhLoop ys) (ys ++ E)).
+  { induction ys as [|y ys IH]; apply gen_yields_pull; rewrite sr_pull_unfold.
+    - apply Q, HN.
+    - replace (length (ps_buf st) + 4)%nat with (S (length (ps_buf st) + 3)) by lia.
+      rewrite sr_next_pending. cbn [app gen_body]. eexists. split; [reflexivity | exact IH]. }
+  intro ys. split; [apply G|].
+  intros fuel F1 FN. destruct ys as [|y ys].
+  - apply Q, FN.
+  - destruct fuel as [|fuel]; [lia|]. rewrite sr_next_pending. cbn [app gen_body].
+    eexists. split; [reflexivity | apply G].
+Qed.
+
+Lemma read_magic_adv s D R : read_magic (adv s D (magic ++ R)) = POk (adv s (D ++ magic) R).
+Proof.
+  unfold read_magic. change 8%Z with (Z.of_N (blen magic)).
+  rewrite ps_read_adv by (vm_compute; reflexivity). cbn [pbind]. reflexivity.
+Qed.
+
+Lemma limit_4g_ok v e st ph pend n : n <= two32 -> limit_ok (sr_limit (mk_sr v e st ph pend)) n.
+Proof. intro H. exact H. Qed.
+
+Lemma two32_lt_two64 n : n <= two32 -> n < two64.
+Proof. unfold two32, two64. lia. Qed.
+Lemma two32_le_two63 n : n <= two32 -> n < two63.
+Proof. unfold two32, two63. lia. Qed.
+
+Lemma crc_before_loop v e s0 D R ph pend :
+  (v = true -> ps_crc s0 = Some 0) ->
+  v = true -> crc_before (mk_sr v e (adv s0 D R) ph pend) = crc32 D.
+Proof.
+  intros Hcrc V. unfold crc_before. cbn [sr_validate sr_skip sr_s mk_sr]. rewrite V. cbn [negb andb].
+  rewrite ps_crc_adv, (Hcrc V). reflexivity.
+Qed.
+
+(* one item that is not the footer: what sr_iter yields and where it leaves the stream *)
+Lemma sr_iter_item v e s0 p D R :
+  (v = true -> ps_crc s0 = Some 0) ->
+  pwf_pitem v e p -> is_footer_item p = false ->
+  (forall d, p = PIRec (PDataEnd d) -> v = true -> de_crc d = 0 \/ de_crc d = crc32 D) ->
+  sr_iter (mk_sr v e (adv s0 D (pitem_bytes p ++ R)) PhLoop [])
+  = POk (pitem_recs e p, false, adv s0 (D ++ pitem_bytes p) R).
+Proof.
+  intros Hcrc (HL & W) NF HD.
+  destruct p as [x|a crc|op body|st en crc l]; cbn [pitem_bytes pitem_recs].
+  - destruct W as [W NC].
+    rewrite (sr_iter_rec _ s0 D x R); [| reflexivity | exact W | exact NC | apply two32_lt_two64, HL
+                                        | apply limit_4g_ok, HL |].
+    + destruct x; try reflexivity. discriminate NF.
+    + unfold dataend_bad. cbn [sr_validate sr_skip mk_sr negb]. rewrite andb_true_r.
+      destruct v eqn:V; [|reflexivity]. cbn [andb].
+      destruct x; try reflexivity.
+      rewrite crc_before_loop by (assumption || reflexivity).
+      destruct (HD d eq_refl eq_refl) as [E|E]; rewrite E.
+      * reflexivity.
+      * rewrite N.eqb_refl. apply andb_false_r.
+  - rewrite (sr_iter_attach _ s0 D a crc R); [reflexivity | reflexivity | exact W
+                                              | apply two32_lt_two64, HL | apply limit_4g_ok, HL].
+  - rewrite (sr_iter_unknown _ s0 D op body R); [reflexivity | reflexivity | exact W
+                                                 | apply two32_le_two63, HL | apply limit_4g_ok, HL].
+  - destruct W as (H1 & H2 & H3 & HI).
+    rewrite (sr_iter_chunk _ s0 D (mk_chunk st en crc l) R);
+      [| reflexivity | | apply two32_lt_two64, HL | apply limit_4g_ok, HL].
+    + cbn [sr_emit sr_validate mk_sr]. destruct e; [reflexivity|].
+      destruct (HI eq_refl) as [F C]. rewrite breakup_chunk_ok by assumption. reflexivity.
+    + unfold pwf_chunk, mk_chunk, u8. cbn [k_start k_end k_usize k_crc k_comp k_records].
+      assert (blen (chunk_bytes l) <= two32).
+      { unfold enc_chunk, mk_chunk in HL. cbn [k_records] in HL. rewrite blen_app in HL. lia. }
+      split; [exact H1|]. split; [exact H2|]. split; [apply two32_lt_two64; assumption|].
+      split; [exact H3|]. split; [reflexivity|]. split; [reflexivity|].
+      apply two32_le_two63. assumption.
+Qed.
+
+Lemma footer_expected e f : py_expected_gen e [PIRec (PFooter f)] = [PFooter f].
+Proof. reflexivity. Qed.
+
+(* the loop from any point of the file on *)
+Lemma sr_next_items v e s0 f : (v = true -> ps_crc s0 = Some 0) -> forall body D fuel,
+  Forall (pwf_pitem v e) (body ++ [PIRec (PFooter f)]) ->
+  Forall (fun p => is_footer_item p = false) body ->
+  dataend_ok v D (body ++ [PIRec (PFooter f)]) ->
+  (length body + 2 <= fuel)%nat ->
+  gen_body (sr_next fuel (mk_sr v e (adv s0 D (py_render (body ++ [PIRec (PFooter f)]) ++ magic)) PhLoop []))
+           (py_expected_gen e (body ++ [PIRec (PFooter f)])).
+Proof.
+  intro Hcrc. induction body as [|p body IH]; intros D fuel W NF HD HF.
+  - cbn [app] in *. destruct fuel as [|[|fuel]]; try (cbn [length] in HF; lia).
+    rewrite sr_next_loop_step.
+    inversion W as [|? ? Wp _]; subst. destruct Wp as (HL & WF & _).
+    change (py_render [PIRec (PFooter f)] ++ magic)
+      with (frame (rec_op (PFooter f)) (rec_body (PFooter f)) ++ magic).
+    rewrite (sr_iter_rec _ s0 D (PFooter f) magic); [| reflexivity | exact WF | reflexivity
+               | apply two32_lt_two64, HL | apply limit_4g_ok, HL
+               | unfold dataend_bad; rewrite andb_false_r; reflexivity].
+    cbn [pbind is_footer py_norm]. rewrite sr_next_pending.
+    rewrite footer_expected. cbn [gen_body]. eexists. split; [reflexivity|].
+    eapply gy_stop. rewrite sr_pull_unfold. rewrite ps_buf_adv.
+    change (length magic + 4)%nat with (S 11). cbn [sr_next mk_sr sr_pending sr_phase sr_s].
+    rewrite <- (app_nil_r magic) at 1. rewrite read_magic_adv. cbn [pbind]. reflexivity.
+  - cbn [app] in *. destruct fuel as [|fuel]; [lia|].
+    inversion W as [|? ? Wp W']; subst. inversion NF as [|? ? NFp NF']; subst.
+    rewrite sr_next_loop_step. rewrite py_render_cons, <- app_assoc.
+    rewrite (sr_iter_item v e s0 p D _ Hcrc Wp NFp).
+    2:{ intros d -> V. apply (dataend_ok_head _ _ _ _ HD V). }
+    cbn [pbind].
+    change (py_expected_gen e (p :: body ++ [PIRec (PFooter f)]))
+      with (pitem_recs e p ++ py_expected_gen e (body ++ [PIRec (PFooter f)])).
+    apply dataend_ok_tail in HD.
+    apply (pend_then v e _ _ (length body + 2)).
+    + intros fuel' HF'. apply IH; assumption.
+    + rewrite ps_buf_adv, app_length. pose proof (py_render_length (body ++ [PIRec (PFooter f)])).
+      rewrite app_length in H. cbn [length] in *. lia.
+    + cbn [length] in HF. lia.
+    + cbn [length] in HF. lia.
+Qed.
+
+Lemma new_sr_mk b e v : new_sr b false e v limit_4g = mk_sr v e (mem_stream b v) PhStart [].
+Proof. reflexivity. Qed.
+
+(* the generator over a whole file yields exactly the expected records and then stops *)
+Theorem py_gen v e ps : pwf_file v e ps ->
+  gen_yields (new_sr (magic ++ py_render ps ++ magic) false e v limit_4g) (py_expected_gen e ps).
+Proof.
+  intros (body & f & -> & W & NF & HD).
+  set (file := magic ++ py_render (body ++ [PIRec (PFooter f)]) ++ magic).
+  apply gen_yields_pull. rewrite new_sr_mk, sr_pull_unfold.
+  replace (length (ps_buf (mem_stream file v)) + 4)%nat with (S (length file + 3)) by (cbn [ps_buf mem_stream]; lia).
+  cbn [sr_next mk_sr sr_pending sr_phase sr_skip sr_s sr_with sr_emit sr_validate sr_limit].
+  rewrite <- (adv_nil (mem_stream file v)). cbn [ps_buf mem_stream]. unfold file at 2.
+  rewrite read_magic_adv. cbn [pbind app].
+  apply (sr_next_items v e (mem_stream file v)).
+  - intros ->. reflexivity.
+  - exact W.
+  - exact NF.
+  - exact HD.
+  - unfold file. rewrite !app_length. pose proof (py_render_length (body ++ [PIRec (PFooter f)])).
+    rewrite app_length in H. cbn [length] in *. lia.
+Qed.
+
+Lemma sr_all_gen r xs : gen_yields r xs -> forall fuel acc, (length xs < fuel)%nat ->
+  sr_all fuel r acc = (rev acc ++ xs, EStop).
+Proof.
+  induction 1 as [r r' E | r x r' xs E G IH]; intros fuel acc HF;
+    (destruct fuel as [|fuel]; [cbn [length] in HF; lia|]); cbn [sr_all]; rewrite E.
+  - rewrite app_nil_r. reflexivity.
+  - rewrite IH by (cbn [length] in HF; lia). cbn [rev]. rewrite <- app_assoc. reflexivity.
+Qed.
+
+Lemma all_fuel_enough e ps :
+  (length (py_expected_gen e ps) < all_fuel (magic ++ py_render ps ++ magic))%nat.
+Proof.
+  unfold all_fuel. rewrite !app_length. pose proof (py_expected_length e ps). lia.
+Qed.
+
+(* StreamReader(file, skip_magic=False, emit_chunks, validate_crcs).records *)
+Theorem py_stream_records_gen v e ps : pwf_file v e ps ->
+  stream_records (magic ++ py_render ps ++ magic) false e v limit_4g = (py_expected_gen e ps, EStop).
+Proof.
+  intro W. unfold stream_records.
+  rewrite (sr_all_gen _ _ (py_gen v e ps W)) by apply all_fuel_enough. reflexivity.
+Qed.
+
+Theorem py_stream_records v ps : pwf_file v false ps ->
+  stream_records (magic ++ py_render ps ++ magic) false false v limit_4g = (py_expected ps, EStop).
+Proof. apply py_stream_records_gen. Qed.
+(* ====================================================================== *)
+(** * 8. NonSeekingReader on such files *)
+
+Definition the_file (ps : list pitem) : bytes := magic ++ py_render ps ++ magic.
+
+Lemma gen_yields_cons r x xs : gen_yields r (x :: xs) ->
+  exists r', sr_pull r = POk (Some x, r') /\ gen_yields r' xs.
+Proof. inversion 1; subst. eexists. split; eassumption. Qed.
+Lemma gen_yields_nil r : gen_yields r [] -> exists r', sr_pull r = POk (None, r').
+Proof. inversion 1; subst. eexists. eassumption. Qed.
+
+(* get_header *)
+Theorem py_ns_get_header v ps h rest : pwf_file v false (PIRec (PHeader h) :: rest) ->
+  ps = PIRec (PHeader h) :: rest ->
+  ns_get_header (the_file ps) v = POk h.
+Proof.
+  intros W ->. pose proof (py_gen v false _ W) as G.
+  change (py_expected_gen false (PIRec (PHeader h) :: rest))
+    with (PHeader h :: py_expected_gen false rest) in G.
+  apply gen_yields_cons in G. destruct G as (r' & E & _).
+  unfold ns_get_header, the_file. rewrite E. reflexivity.
+Qed.
+
+(* iter_attachments / iter_metadata *)
+Theorem py_ns_iter keep v ps : pwf_file v false ps ->
+  ns_iter keep (the_file ps) v = (filter keep (py_expected ps), EStop).
+Proof. intro W. unfold ns_iter, the_file. rewrite py_stream_records by exact W. reflexivity. Qed.
+
+Definition pitem_atts (p : pitem) : list attachment :=
+  match p with PIAttach a _ => [a] | PIRec (PAttachment a) => [a] | _ => [] end.
+Definition file_atts (ps : list pitem) : list attachment := flat_map pitem_atts ps.
+Definition pitem_mds (p : pitem) : list metadata :=
+  match p with PIRec (PMetadata m) => [m] | _ => [] end.
+Definition file_mds (ps : list pitem) : list metadata := flat_map pitem_mds ps.
+
+Lemma chunk_recs_no_att l : filter is_att (chunk_recs l) = [].
+Proof.
+  induction l as [|i l IH]; [reflexivity|]. unfold chunk_recs in *. cbn [flat_map].
+  rewrite filter_app, IH. destruct i; reflexivity.
+Qed.
+Lemma chunk_recs_no_md l : filter is_md (chunk_recs l) = [].
+Proof.
+  induction l as [|i l IH]; [reflexivity|]. unfold chunk_recs in *. cbn [flat_map].
+  rewrite filter_app, IH. destruct i; reflexivity.
+Qed.
+
+Lemma expected_atts v ps : Forall (pwf_pitem v false) ps ->
+  filter is_att (py_expected ps) = map PAttachment (file_atts ps).
+Proof.
+  induction 1 as [|p ps Wp _ IH]; [reflexivity|].
+  unfold py_expected, py_expected_gen, file_atts in *. cbn [flat_map].
+  rewrite filter_app, map_app, IH. f_equal.
+  destruct Wp as [_ Wp]. destruct p as [x|a crc|op body|st en crc l]; cbn [pitem_recs pitem_atts].
+  - destruct x; try reflexivity. destruct Wp as [Wp _]. cbn [pwf_rec] in Wp.
+    cbn [py_norm filter is_att map]. rewrite py_attachment_id; [reflexivity|]. apply Wp.
+  - cbn [filter is_att map]. rewrite py_attachment_id; [reflexivity|]. apply Wp.
+  - reflexivity.
+  - apply chunk_recs_no_att.
+Qed.
+
+Lemma expected_mds ps :
+  filter is_md (py_expected ps) = map (fun m => PMetadata (py_metadata m)) (file_mds ps).
+Proof.
+  induction ps as [|p ps IH]; [reflexivity|].
+  unfold py_expected, py_expected_gen, file_mds in *. cbn [flat_map].
+  rewrite filter_app, map_app, IH. f_equal.
+  destruct p as [x|a crc|op body|st en crc l]; cbn [pitem_recs pitem_mds]; try reflexivity.
+  - destruct x; reflexivity.
+  - apply chunk_recs_no_md.
+Qed.
+
+(* all attachments, in file order, every field as written *)
+Theorem py_ns_iter_attachments v ps : pwf_file v false ps ->
+  ns_iter is_att (the_file ps) v = (map PAttachment (file_atts ps), EStop).
+Proof.
+  intro W. rewrite py_ns_iter by exact W. destruct W as (body & f & _ & F & _).
+  rewrite (expected_atts v) by exact F. reflexivity.
+Qed.
+
+(* all metadata records, in file order; the dict lists the pairs in the order Go wrote them *)
+Theorem py_ns_iter_metadata v ps : pwf_file v false ps ->
+  ns_iter is_md (the_file ps) v = (map (fun m => PMetadata (py_metadata m)) (file_mds ps), EStop).
+Proof. intro W. rewrite py_ns_iter by exact W. rewrite expected_mds. reflexivity. Qed.
+
+(* ---------- get_summary ---------- *)
+Definition not_footer_rec (x : prec) : bool := match x with PFooter _ => false | _ => true end.
+
+Lemma read_summary_gen xs : forall r f ys su fuel,
+  gen_yields r (xs ++ PFooter f :: ys) -> forallb not_footer_rec xs = true -> (length xs < fuel)%nat ->
+  read_summary fuel r su
+  = POk (if f_summary_start f =? 0 then None else Some (fold_left summary_add xs su)).
+Proof.
+  induction xs as [|x xs IH]; intros r f ys su fuel G NF HF;
+    (destruct fuel as [|fuel]; [cbn [length] in HF; lia|]); cbn [app] in G;
+    apply gen_yields_cons in G; destruct G as (r' & E & G); cbn [read_summary]; rewrite E; cbn [pbind].
+  - destruct (f_summary_start f =? 0); reflexivity.
+  - cbn [forallb] in NF. apply andb_true_iff in NF. destruct NF as [NFx NF].
+    cbn [fold_left]. cbn [length] in HF.
+    destruct x; try discriminate NFx; apply (IH _ _ _ _ _ G NF); lia.
+Qed.
+
+Lemma chunk_recs_no_footer l : forallb not_footer_rec (chunk_recs l) = true.
+Proof.
+  induction l as [|i l IH]; [reflexivity|]. unfold chunk_recs in *. cbn [flat_map].
+  rewrite forallb_app, IH. destruct i; reflexivity.
+Qed.
+
+Lemma expected_no_footer body : Forall (fun p => is_footer_item p = false) body ->
+  forallb not_footer_rec (py_expected body) = true.
+Proof.
+  induction 1 as [|p ps NF _ IH]; [reflexivity|].
+  unfold py_expected, py_expected_gen in *. cbn [flat_map]. rewrite forallb_app, IH, andb_true_r.
+  destruct p as [x|a crc|op body|st en crc l]; cbn [pitem_recs]; try reflexivity.
+  - destruct x; try reflexivity. discriminate NF.
+  - apply chunk_recs_no_footer.
+Qed.
+
+Lemma py_expected_app e a b : py_expected_gen e (a ++ b) = py_expected_gen e a ++ py_expected_gen e b.
+Proof. unfold py_expected_gen. apply flat_map_app. Qed.
+
+(* get_summary: None when the footer says there is no summary section, otherwise every schema,
+   channel, statistics and index record of the file (data section and summary section alike) *)
+Theorem py_ns_get_summary v body f : pwf_file v false (body ++ [PIRec (PFooter f)]) ->
+  Forall (fun p => is_footer_item p = false) body ->
+  ns_get_summary (the_file (body ++ [PIRec (PFooter f)])) v
+  = POk (if f_summary_start f =? 0 then None
+         else Some (fold_left summary_add (py_expected body) empty_summary)).
+Proof.
+  intros W NF. pose proof (py_gen v false _ W) as G.
+  rewrite py_expected_app in G. change (py_expected_gen false [PIRec (PFooter f)]) with [PFooter f] in G.
+  unfold ns_get_summary, the_file.
+  apply (read_summary_gen _ _ _ _ _ _ G (expected_no_footer _ NF)).
+  pose proof (all_fuel_enough false (body ++ [PIRec (PFooter f)])) as HF.
+  rewrite py_expected_app, app_length in HF. unfold py_expected. cbn [length] in HF. lia.
+Qed.
+
+(* ---------- iter_messages ---------- *)
+(* the loop of _iter_messages_internal over a list of records *)
+Fixpoint msgs_run (flt : mfilter) (xs : list prec) (schemas : list (N * schema)) (channels : list (N * channel))
+         (acc : list triple) : list triple * ending :=
+  match xs with
+  | [] => (rev acc, EStop)
+  | PSchema x :: r => msgs_run flt r (pn_set (s_id x) x schemas) channels acc
+  | PChannel c :: r =>
+    if negb (c_schema c =? 0) && match pn_get (c_schema c) schemas with Some _ => false | None => true end
+    then (rev acc, ERaise PMcap)
+    else msgs_run flt r schemas (pn_set (c_id c) c channels) acc
+  | PMessage m :: r =>
+    match pn_get (m_chan m) channels with
+    | None => (rev acc, ERaise PMcap)
+    | Some c =>
+      if msg_selected flt c m then
+        if c_schema c =? 0 then msgs_run flt r schemas channels ((None, c, m) :: acc)
+        else match pn_get (c_schema c) schemas with
+             | Some sc => msgs_run flt r schemas channels ((Some sc, c, m) :: acc)
+             | None => (rev acc, ERaise PKey)
+             end
+      else msgs_run flt r schemas channels acc
+    end
+  | _ :: r => msgs_run flt r schemas channels acc
+  end.
+
+Lemma ns_messages_gen flt r xs : gen_yields r xs -> forall fuel sc ch acc, (length xs < fuel)%nat ->
+  ns_messages fuel flt r sc ch acc = msgs_run flt xs sc ch acc.
+Proof.
+  induction 1 as [r r' E | r x r' xs E G IH]; intros fuel sc ch acc HF;
+    (destruct fuel as [|fuel]; [cbn [length] in HF; lia|]); cbn [ns_messages]; rewrite E.
+  - reflexivity.
+  - cbn [length] in HF. assert (HF' : (length xs < fuel)%nat) by lia.
+    destruct x; cbn [msgs_run]; try (apply IH; exact HF').
+    + destruct (negb (c_schema c =? 0) && _); [reflexivity | apply IH; exact HF'].
+    + destruct (pn_get (m_chan m) ch) as [c|]; [|reflexivity].
+      destruct (msg_selected flt c m); [|apply IH; exact HF'].
+      destruct (c_schema c =? 0); [apply IH; exact HF'|].
+      destruct (pn_get (c_schema c) sc); [apply IH; exact HF' | reflexivity].
+Qed.
+
+(* the schema / channel registered latest among the records pre, for an id *)
+Definition latest_schema (pre : list prec) (id : N) : option schema :=
+  fold_left (fun acc r => match r with PSchema x => if s_id x =? id then Some x else acc | _ => acc end) pre None.
+Definition latest_channel (pre : list prec) (id : N) : option channel :=
+  fold_left (fun acc r => match r with PChannel c => if c_id c =? id then Some c else acc | _ => acc end) pre None.
+
+(* what a message yields: its channel is the one registered latest before it under its channel id,
+   the schema the one registered latest before it under that channel's schema id (None for id 0) *)
+Definition msg_triple (flt : mfilter) (pre : list prec) (m : message) : list triple :=
+  match latest_channel pre (m_chan m) with
+  | Some c =>
+    if msg_selected flt c m
+    then [(if c_schema c =? 0 then None else latest_schema pre (c_schema c), c, m)]
+    else []
+  | None => []
+  end.
+Fixpoint msgs_spec (flt : mfilter) (pre rs : list prec) : list triple :=
+  match rs with
+  | [] => []
+  | r :: rest => (match r with PMessage m => msg_triple flt pre m | _ => [] end)
+                 ++ msgs_spec flt (pre ++ [r]) rest
+  end.
+
+Definition is_some {A} (o : option A) : bool := match o with Some _ => true | None => false end.
+
+(* every message's channel and every channel's non-zero schema was registered before it *)
+Fixpoint refs_ok (pre rs : list prec) : bool :=
+  match rs with
+  | [] => true
+  | r :: rest =>
+    match r with
+    | PChannel c => (c_schema c =? 0) || is_some (latest_schema pre (c_schema c))
+    | PMessage m => is_some (latest_channel pre (m_chan m))
+    | _ => true
+    end && refs_ok (pre ++ [r]) rest
+  end.
+
+Lemma latest_schema_snoc pre r id :
+  latest_schema (pre ++ [r]) id
+  = match r with PSchema x => if s_id x =? id then Some x else latest_schema pre id | _ => latest_schema pre id end.
+Proof. unfold latest_schema. rewrite fold_left_app. reflexivity. Qed.
+Lemma latest_channel_snoc pre r id :
+  latest_channel (pre ++ [r]) id
+  = match r with PChannel c => if c_id c =? id then Some c else latest_channel pre id | _ => latest_channel pre id end.
+Proof. unfold latest_channel. rewrite fold_left_app. reflexivity. Qed.
+
+Definition dicts_ok (pre : list prec) (sc : list (N * schema)) (ch : list (N * channel)) : Prop :=
+  (forall id, pn_get id sc = latest_schema pre id)
+  /\ (forall id, pn_get id ch = latest_channel pre id)
+  /\ (forall id c, latest_channel pre id = Some c -> c_schema c <> 0 -> latest_schema pre (c_schema c) <> None).
+
+Lemma msgs_run_spec flt xs : forall pre sc ch acc,
+  dicts_ok pre sc ch -> refs_ok pre xs = true ->
+  msgs_run flt xs sc ch acc = (rev acc ++ msgs_spec flt pre xs, EStop).
+Proof.
+  induction xs as [|x xs IH]; intros pre sc ch acc (HS & HC & HI) RO; cbn [msgs_run msgs_spec].
+  - rewrite app_nil_r. reflexivity.
+  - cbn [refs_ok] in RO. apply andb_true_iff in RO. destruct RO as [ROx RO].
+    assert (KEEP : forall y, (forall z, y <> PSchema z) -> (forall z, y <> PChannel z) ->
+                     dicts_ok (pre ++ [y]) sc ch).
+    { intros y N1 N2. split; [|split].
+      - intro id. rewrite latest_schema_snoc, HS. destruct y; try reflexivity. exfalso. eapply N1. reflexivity.
+      - intro id. rewrite latest_channel_snoc, HC. destruct y; try reflexivity. exfalso. eapply N2. reflexivity.
+      - intros id c. rewrite latest_channel_snoc, latest_schema_snoc.
+        destruct y; try apply HI. + exfalso. eapply N1. reflexivity. + exfalso. eapply N2. reflexivity. }
+    destruct x;
+      try (cbn [app]; apply IH; [apply KEEP; intros; discriminate | exact RO]).
+    + (* schema *)
+      cbn [app]. apply IH; [|exact RO]. split; [|split].
+      * intro id. rewrite latest_schema_snoc, pn_get_set, HS. reflexivity.
+      * intro id. rewrite latest_channel_snoc, HC. reflexivity.
+      * intros id c. rewrite latest_channel_snoc, latest_schema_snoc. intros L NZ.
+        destruct (s_id s =? c_schema c); [discriminate | apply (HI id c L NZ)].
+    + (* channel *)
+      rewrite HS.
+      replace (negb (c_schema c =? 0) && match latest_schema pre (c_schema c) with Some _ => false | None => true end)
+        with false.
+      2:{ symmetry. apply orb_true_iff in ROx. destruct ROx as [Z|S]; [rewrite Z; reflexivity|].
+          destruct (latest_schema pre (c_schema c)); [apply andb_false_r | discriminate S]. }
+      cbn [app]. apply IH; [|exact RO]. split; [|split].
+      * intro id. rewrite latest_schema_snoc, HS. reflexivity.
+      * intro id. rewrite latest_channel_snoc, pn_get_set, HC. reflexivity.
+      * intros id c'. rewrite latest_channel_snoc, latest_schema_snoc.
+        destruct (c_id c =? id).
+        -- intros [= <-] NZ. apply orb_true_iff in ROx. destruct ROx as [Z|S].
+           ++ apply N.eqb_eq in Z. contradiction.
+           ++ destruct (latest_schema pre (c_schema c)); [discriminate | discriminate S].
+        -- apply HI.
+    + (* message *)
+      unfold msg_triple. rewrite HC.
+      destruct (latest_channel pre (m_chan m)) as [c|] eqn:LC; [|discriminate ROx].
+      assert (D' : dicts_ok (pre ++ [PMessage m]) sc ch) by (apply KEEP; intros; discriminate).
+      destruct (msg_selected flt c m).
+      * destruct (N.eqb_spec (c_schema c) 0) as [Z|NZ].
+        -- rewrite (IH _ _ _ _ D' RO). cbn [rev app]. rewrite <- app_assoc. reflexivity.
+        -- rewrite HS. pose proof (HI _ _ LC NZ) as SS.
+           destruct (latest_schema pre (c_schema c)) as [sch|]; [|contradiction].
+           rewrite (IH _ _ _ _ D' RO). cbn [rev app]. rewrite <- app_assoc. reflexivity.
+      * cbn [app]. apply (IH _ _ _ _ D' RO).
+Qed.
+
+Lemma dicts_ok_nil : dicts_ok [] [] [].
+Proof. split; [|split]; intros; try reflexivity. discriminate. Qed.
+
+(* iter_messages(log_time_order=False): the messages in file order *)
+Theorem py_ns_iter_messages_file_order v ps flt reverse : pwf_file v false ps ->
+  refs_ok [] (py_expected ps) = true ->
+  ns_iter_messages (the_file ps) v flt false reverse = (msgs_spec flt [] (py_expected ps), EStop).
+Proof.
+  intros W RO. unfold ns_iter_messages, the_file, py_expected in *.
+  rewrite (ns_messages_gen flt _ _ (py_gen v false ps W)) by apply all_fuel_enough.
+  rewrite (msgs_run_spec flt _ [] [] [] [] dicts_ok_nil RO). reflexivity.
+Qed.
+
+(* iter_messages(log_time_order=True, reverse): the same list through sorted(key=log_time, reverse) *)
+Theorem py_ns_iter_messages_log_order v ps flt reverse : pwf_file v false ps ->
+  refs_ok [] (py_expected ps) = true ->
+  ns_iter_messages (the_file ps) v flt true reverse
+  = (py_sorted reverse (msgs_spec flt [] (py_expected ps)), EStop).
+Proof.
+  intros W RO. unfold ns_iter_messages, the_file, py_expected in *.
+  rewrite (ns_messages_gen flt _ _ (py_gen v false ps W)) by apply all_fuel_enough.
+  rewrite (msgs_run_spec flt _ [] [] [] [] dicts_ok_nil RO). reflexivity.
+Qed.
+
+(* ---------- sorted(): a stable sort in both directions ---------- *)
+Definition key_le (rev_ : bool) (a b : triple) : Prop :=
+  if rev_ then t_log b <= t_log a else t_log a <= t_log b.
+Definition same_key (k : N) (t : triple) : bool := t_log t =? k.
+
+Lemma ins_sorted_perm r x l : Permutation (ins_sorted r x l) (x :: l).
+Proof.
+  induction l as [|y l IH]; cbn [ins_sorted]; [reflexivity|].
+  destruct (if r then _ else _); [reflexivity|].
+  rewrite IH. apply perm_swap.
+Qed.
+
+Lemma ins_sorted_sorted r x l :
+  StronglySorted (key_le r) l -> StronglySorted (key_le r) (ins_sorted r x l).
+Proof.
+  induction l as [|y l IH]; intro S; cbn [ins_sorted].
+  - constructor; constructor.
+  - inversion S as [|? ? S' F]; subst.
+    destruct (if r then t_log y <? t_log x else t_log x <? t_log y) eqn:T.
+    + constructor; [exact S|]. constructor.
+      * unfold key_le. destruct r; lia.
+      * eapply Forall_impl; [|exact F]. intros z Hz. unfold key_le in *. destruct r; lia.
+    + constructor; [apply IH, S'|].
+      eapply Permutation_Forall; [symmetry; apply ins_sorted_perm|].
+      constructor; [|exact F]. unfold key_le. destruct r; lia.
+Qed.
+
+Lemma filter_none {A} (f : A -> bool) l : (forall z, In z l -> f z = false) -> filter f l = [].
+Proof.
+  induction l as [|y l IH]; intro H; [reflexivity|]. cbn [filter].
+  rewrite (H y (or_introl eq_refl)). apply IH. intros z Hz. apply H. right. exact Hz.
+Qed.
+
+Lemma ins_sorted_stable r x l k : StronglySorted (key_le r) l ->
+  filter (same_key k) (ins_sorted r x l) = filter (same_key k) l ++ filter (same_key k) [x].
+Proof.
+  induction l as [|y l IH]; intro S; cbn [ins_sorted].
+  - reflexivity.
+  - inversion S as [|? ? S' F]; subst.
+    destruct (if r then t_log y <? t_log x else t_log x <? t_log y) eqn:T.
+    + change (x :: y :: l) with ([x] ++ (y :: l)). rewrite filter_app.
+      destruct (same_key k x) eqn:E.
+      * assert (NY : filter (same_key k) (y :: l) = []).
+        { apply filter_none. unfold same_key in E. intros z [<-|Hz].
+          - unfold same_key. destruct r; lia.
+          - rewrite Forall_forall in F. specialize (F z Hz).
+            unfold key_le, same_key in *. destruct r; lia. }
+        rewrite NY, app_nil_r. reflexivity.
+      * cbn [filter]. rewrite E. rewrite app_nil_r. reflexivity.
+    + cbn [filter]. rewrite IH by exact S'. destruct (same_key k y); reflexivity.
+Qed.
+
+Lemma py_sorted_from r l : forall acc, StronglySorted (key_le r) acc ->
+  let res := fold_left (fun a x => ins_sorted r x a) l acc in
+  Permutation (acc ++ l) res /\ StronglySorted (key_le r) res
+  /\ forall k, filter (same_key k) res = filter (same_key k) acc ++ filter (same_key k) l.
+Proof.
+  induction l as [|x l IH]; intros acc S; cbn [fold_left]; cbv zeta.
+  - rewrite app_nil_r. split; [reflexivity|]. split; [exact S|]. intro k. rewrite app_nil_r. reflexivity.
+  - destruct (IH (ins_sorted r x acc) (ins_sorted_sorted r x acc S)) as (P & S' & ST).
+    split; [|split].
+    + rewrite <- P. rewrite ins_sorted_perm.
+      cbn [app]. symmetry. apply Permutation_middle.
+    + exact S'.
+    + intro k. rewrite ST, ins_sorted_stable by exact S. rewrite <- app_assoc.
+      change (x :: l) with ([x] ++ l). rewrite (filter_app _ [x] l). reflexivity.
+Qed.
+
+(* sorted(l, key=log_time, reverse=r) is a permutation of l, ordered by log time (descending for
+   reverse), and records with the same log time keep their relative order *)
+Theorem py_sorted_stable r l :
+  Permutation l (py_sorted r l)
+  /\ StronglySorted (key_le r) (py_sorted r l)
+  /\ forall k, filter (same_key k) (py_sorted r l) = filter (same_key k) l.
+Proof.
+  destruct (py_sorted_from r l [] (SSorted_nil _)) as (P & S & ST). auto.
+Qed.
+(* a chunk read with emit_chunks=False: the inner schema/channel/message records in order *)
+Theorem sr_iter_chunk_inner r s0 D st en crc l R :
+  sr_s r = adv s0 D (frame OpChunk (enc_chunk (mk_chunk st en crc l)) ++ R) ->
+  sr_emit r = false ->
+  st < two64 -> en < two64 -> crc < two32 -> blen (chunk_bytes l) < two63 ->
+  limit_ok (sr_limit r) (blen (enc_chunk (mk_chunk st en crc l))) ->
+  Forall pwf_inner l -> chunk_crc_ok (sr_validate r) crc l ->
+  sr_iter r = POk (chunk_recs l, false, adv s0 (D ++ frame OpChunk (enc_chunk (mk_chunk st en crc l))) R).
+Proof.
+  intros HS HE H1 H2 H3 HB HL F C.
+  assert (HB2 : blen (chunk_bytes l) < two64) by (unfold two63, two64 in *; lia).
+  rewrite (sr_iter_chunk r s0 D _ R HS).
+  - rewrite HE, breakup_chunk_ok by assumption. reflexivity.
+  - unfold pwf_chunk, mk_chunk, u8. cbn [k_start k_end k_usize k_crc k_comp k_records].
+    split; [exact H1|]. split; [exact H2|]. split; [exact HB2|].
+    split; [exact H3|]. split; [reflexivity|]. split; [reflexivity|]. exact HB.
+  - unfold enc_chunk, enc_chunk_top, mk_chunk, pstr.
+    cbn [k_start k_end k_usize k_crc k_comp k_records].
+    rewrite !blen_app, !blen_u64, !blen_u32, blen_nil. unfold two63, two64 in *. lia.
+  - exact HL.
+Qed.
+
+(* the same over an arbitrary stream reader state: take s0 := sr_s r and D := [] *)
+Lemma sr_s_adv r R : ps_buf (sr_s r) = R -> sr_s r = adv (sr_s r) [] R.
+Proof. intros <-. symmetry. apply adv_nil. Qed.
+
+Theorem sr_iter_rec_stream r x R :
+  ps_buf (sr_s r) = frame (rec_op x) (rec_body x) ++ R ->
+  pwf_rec x -> is_chunk x = false ->
+  blen (rec_body x) < two64 -> limit_ok (sr_limit r) (blen (rec_body x)) ->
+  dataend_bad r (Some x) = false ->
+  exists s', sr_iter r = POk ([py_norm x], is_footer (Some x), s')
+             /\ advance (sr_s r) (frame (rec_op x) (rec_body x)) s' /\ ps_buf s' = R.
+Proof.
+  intros HB W NC HL HLim HD.
+  exists (adv (sr_s r) (frame (rec_op x) (rec_body x)) R). split; [|split].
+  - rewrite (sr_iter_rec r (sr_s r) [] x R (sr_s_adv r _ HB) W NC HL HLim HD). reflexivity.
+  - apply adv_advance, HB.
+  - reflexivity.
+Qed.
+
+(* ---------- a checker for the DataEnd condition ---------- *)
+Fixpoint dataend_okb (D : bytes) (items : list pitem) : bool :=
+  match items with
+  | [] => true
+  | p :: rest =>
+    match p with
+    | PIRec (PDataEnd d) => (de_crc d =? 0) || (de_crc d =? crc32 D)
+    | _ => true
+    end && dataend_okb (D ++ pitem_bytes p) rest
+  end.
+
+Lemma dataend_okb_ok v items : forall D, dataend_okb D items = true -> dataend_ok v D items.
+Proof.
+  induction items as [|p items IH]; intros D H V pre d post E.
+  - destruct pre; discriminate E.
+  - cbn [dataend_okb] in H. apply andb_true_iff in H. destruct H as [Hp H].
+    destruct pre as [|q pre]; cbn [app] in E; injection E as -> ->.
+    + cbn [py_render map concat]. rewrite app_nil_r.
+      apply orb_true_iff in Hp. destruct Hp as [Z|Z]; apply N.eqb_eq in Z; auto.
+    + rewrite py_render_cons, app_assoc. apply (IH _ H V pre d post eq_refl).
+Qed.
+
+(* ====================================================================== *)
+(** * 9. non-vacuity: a concrete file satisfying every hypothesis *)
+
+Definition px_header : header := {| h_profile := [x78]; h_library := [x6c; x69; x62] |}.
+Definition px_schema : schema :=
+  {| s_id := 1; s_name := [x73]; s_encoding := [xc3; xa9]; s_data := [x00; xff; x80] |}.
+(* metadata written as "b" -> "2", "a" -> "1": Go sorts the keys *)
+Definition px_kvs : kvs := [([x62], [x32]); ([x61], [x31])].
+Definition px_channel : channel :=
+  {| c_id := 1; c_schema := 1; c_topic := [x2f; x74]; c_menc := [x6d]; c_meta := px_kvs |}.
+Definition px_msg1 : message :=
+  {| m_chan := 1; m_seq := 1; m_log := 20; m_pub := 20; m_data := [x01; x02; x03] |}.
+Definition px_msg2 : message :=
+  {| m_chan := 1; m_seq := 2; m_log := 10; m_pub := 10; m_data := [] |}.
+Definition px_inner : list pinner :=
+  [NMessage px_msg1; NOther x7f [x00; x01]; NMessage px_msg2].
+Definition px_chunk_crc : N := Eval vm_compute in crc32 (chunk_bytes px_inner).
+Definition px_attachment : attachment :=
+  {| a_log := 5; a_create := 6; a_name := [x61; x74; x74]; a_media := [x74; x78; x74]; a_size := 4;
+     a_data := [x64; x61; x74; x61] |}.
+Definition px_metadata : metadata := {| md_name := [x6d; x64]; md_meta := px_kvs |}.
+Definition px_msgindex : msgindex := {| mi_chan := 1; mi_entries := [(20, 0); (10, 45)] |}.
+Definition px_data : list pitem :=
+  [ PIRec (PHeader px_header); PIRec (PSchema px_schema); PIRec (PChannel px_channel);
+    PIChunk 10 20 px_chunk_crc px_inner; PIRec (PMsgIndex px_msgindex);
+    PIAttach px_attachment 7; PIUnknown x80 [xaa]; PIRec (PMetadata px_metadata) ].
+Definition px_dataend_crc : N := Eval vm_compute in crc32 (magic ++ py_render px_data).
+Definition px_dataend : dataend := {| de_crc := px_dataend_crc |}.
+Definition px_chunkindex : chunkindex :=
+  {| ci_start := 10; ci_end := 20; ci_offset := 111; ci_length := 112; ci_mioffsets := [(1, 300)];
+     ci_milength := 0; ci_comp := []; ci_csize := 83; ci_usize := 83 |}.
+Definition px_statistics : statistics :=
+  {| st_messages := 2; st_schemas := 1; st_channels := 1; st_attachments := 1; st_metadata := 1;
+     st_chunks := 1; st_start := 10; st_end := 20; st_counts := [(1, 2)] |}.
+Definition px_footer : footer := {| f_summary_start := 400; f_summary_offset_start := 0; f_crc := 0 |}.
+Definition px_attindex : attindex :=
+  {| ai_offset := 250; ai_length := 60; ai_log := 5; ai_create := 6; ai_size := 4;
+     ai_name := [x61; x74; x74]; ai_media := [x74; x78; x74] |}.
+Definition px_mdindex : mdindex := {| mx_offset := 330; mx_length := 40; mx_name := [x6d; x64] |}.
+Definition px_sumoffset : sumoffset := {| so_op := OpSchema; so_start := 400; so_length := 30 |}.
+Definition px_body : list pitem :=
+  px_data ++ [ PIRec (PDataEnd px_dataend); PIRec (PSchema px_schema); PIRec (PChannel px_channel);
+               PIRec (PChunkIndex px_chunkindex); PIRec (PAttIndex px_attindex);
+               PIRec (PMdIndex px_mdindex); PIRec (PStatistics px_statistics);
+               PIRec (PSumOffset px_sumoffset) ].
+Definition px_file : list pitem := px_body ++ [PIRec (PFooter px_footer)].
+
+Ltac wf_solve :=
+  repeat match goal with
+  | |- _ /\ _ => split
+  | |- Forall _ _ => constructor
+  | |- NoDup _ => constructor
+  | |- True => exact I
+  | |- _ \/ _ => first [left; vm_compute; reflexivity | right; vm_compute; reflexivity]
+  | |- @eq _ _ _ => vm_compute; reflexivity
+  | |- N.lt _ _ => vm_compute; reflexivity
+  | |- N.le _ _ => vm_compute; discriminate
+  | |- _ -> _ => intro
+  | |- _ => progress hnf
+  end.
+
+Example px_header_wf : pwf_header px_header. Proof. wf_solve. Qed.
+Example px_schema_wf : pwf_schema px_schema. Proof. wf_solve. Qed.
+Example px_channel_wf : pwf_channel px_channel. Proof. wf_solve. Qed.
+Example px_message_wf : wf_message px_msg1 /\ blen (m_data px_msg1) < two63. Proof. wf_solve. Qed.
+Example px_attachment_wf : pwf_attachment px_attachment (a_data px_attachment). Proof. wf_solve. Qed.
+Example px_metadata_wf : pwf_metadata px_metadata. Proof. wf_solve. Qed.
+Example px_chunkindex_wf : pwf_chunkindex px_chunkindex. Proof. wf_solve. Qed.
+Example px_statistics_wf : wf_statistics px_statistics. Proof. wf_solve. Qed.
+Example px_msgindex_wf : wf_msgindex px_msgindex. Proof. wf_solve. Qed.
+Example px_attindex_wf : pwf_attindex px_attindex. Proof. wf_solve. Qed.
+Example px_mdindex_wf : pwf_mdindex px_mdindex. Proof. wf_solve. Qed.
+Example px_sumoffset_wf : wf_sumoffset px_sumoffset. Proof. wf_solve. Qed.
+Example px_footer_wf : wf_footer px_footer. Proof. wf_solve. Qed.
+Example px_dataend_wf : wf_dataend px_dataend. Proof. wf_solve. Qed.
+Example px_inner_wf : Forall pwf_inner px_inner. Proof. wf_solve. Qed.
+Example px_chunk_wf : pwf_chunk (mk_chunk 10 20 px_chunk_crc px_inner). Proof. wf_solve. Qed.
+
+Example px_chunk_crc_ok : chunk_crc_ok true px_chunk_crc px_inner.
+Proof. intros _. right. vm_compute. reflexivity. Qed.
+
+Example px_file_wf v e : pwf_file v e px_file.
+Proof.
+  exists px_body, px_footer. split; [reflexivity|]. split; [|split].
+  - unfold px_file, px_body, px_data. cbn [app]. wf_solve.
+  - unfold px_body, px_data. cbn [app]. wf_solve.
+  - apply dataend_okb_ok. vm_compute. reflexivity.
+Qed.
+
+Example px_refs_ok : refs_ok [] (py_expected px_file) = true.
+Proof. vm_compute. reflexivity. Qed.
+
+(* the theorem's right-hand side is what the model computes on this file *)
+Example px_stream_records_computed :
+  stream_records (the_file px_file) false false true limit_4g = (py_expected px_file, EStop).
+Proof. vm_compute. reflexivity. Qed.
